@@ -2600,3 +2600,68 @@ Proof. vm_compute. reflexivity. Qed.
 
 Lemma ex_irregular_reg_wf : wf wenv (regularise wenv ex_irregular).
 Proof. exact (wfb_sound wenv _ ex_irregular_reg_wfb). Qed.
+
+(** ---- C16: rename_slide_parts ---- *)
+
+Lemma rename_map_nth rs rids : forall i m, rename_map rs rids i = Ok m ->
+  forall j rid, nth_error rids j = Some rid ->
+    exists r, find (fun r => str_eqb (l_id r) rid) rs = Some r /\ l_ext r = false /\
+              nth_error m j = Some (l_target r, slide_name (i + j)).
+Proof.
+  induction rids as [|rid0 rids IH]; intros i m H j rid Hj; [destruct j; discriminate|].
+  simpl in H. destruct (find (fun r => str_eqb (l_id r) rid0) rs) as [r0|] eqn:Ef; [|discriminate].
+  destruct (l_ext r0) eqn:Ee; [discriminate|].
+  destruct (rename_map rs rids (S i)) as [m0|] eqn:Em; simpl in H; [|discriminate]. inversion H; subst.
+  destruct j as [|j]; simpl in Hj.
+  - inversion Hj; subst. exists r0. repeat split; auto. simpl. rewrite Nat.add_0_r. reflexivity.
+  - destruct (IH (S i) m0 Em j rid Hj) as (r & Hr & He & Hn). exists r. repeat split; auto.
+    simpl. rewrite Hn. f_equal. f_equal. f_equal. lia.
+Qed.
+
+Lemma rename_map_err rs rids : forall i e, rename_map rs rids i = Err e ->
+  (e = KeyErr /\ exists rid, In rid rids /\ find (fun r => str_eqb (l_id r) rid) rs = None) \/
+  (e = ValueErr /\ exists rid r, In rid rids /\ find (fun r => str_eqb (l_id r) rid) rs = Some r /\ l_ext r = true).
+Proof.
+  induction rids as [|rid0 rids IH]; intros i e H; [discriminate|]. simpl in H.
+  destruct (find (fun r => str_eqb (l_id r) rid0) rs) as [r0|] eqn:Ef.
+  - destruct (l_ext r0) eqn:Ee.
+    + inversion H; subst. right. split; auto. exists rid0, r0. simpl; auto.
+    + destruct (rename_map rs rids (S i)) as [m0|e0] eqn:Em; simpl in H; [discriminate|].
+      destruct (IH (S i) e0 Em) as [(He & rid & Hin & Hf)|(He & rid & r & Hin & Hf & Hx)]; inversion H; subst.
+      * left. split; auto. exists rid. simpl; auto.
+      * right. split; auto. exists rid, r. simpl; auto.
+  - inversion H; subst. left. split; auto. exists rid0. simpl; auto.
+Qed.
+
+Lemma lookup_rev_NoDup {V} k (d : list (str * V)) : NoDup (map fst d) -> lookup k (rev d) = lookup k d.
+Proof.
+  intros H. apply lookup_perm; [apply Permutation_sym, Permutation_rev|].
+  rewrite map_rev. apply NoDup_rev. exact H.
+Qed.
+
+(** when the listed relationships lead to distinct parts, the j-th listed slide part is
+    renamed /ppt/slides/slide(j+1).xml, whatever it was called before *)
+Lemma rename_in_order rs rids m : rename_map rs rids 1 = Ok m -> NoDup (map fst m) ->
+  forall j rid, nth_error rids j = Some rid ->
+    exists r, find (fun r => str_eqb (l_id r) rid) rs = Some r /\ l_ext r = false /\
+              renamed m (l_target r) = slide_name (S j).
+Proof.
+  intros H Hnd j rid Hj. destruct (rename_map_nth rs rids 1 m H j rid Hj) as (r & Hr & He & Hn).
+  exists r. repeat split; auto. unfold renamed. rewrite lookup_rev_NoDup by auto.
+  rewrite (lookup_NoDup_In (l_target r) (slide_name (1 + j)) m Hnd); [reflexivity|].
+  eapply nth_error_In; eauto.
+Qed.
+
+Definition s_rId7 : str := [114; 73; 100; 55]%N.
+
+Lemma ex_deck_rename :
+  match load_presentation wenv ex_deck with
+  | Ok (k, main) =>
+      exists m, rename_map (p_rels main) [s_rId7] 1 = Ok m /\ NoDup (map fst m) /\
+                renamed m n_ppt_slides_slide1_xml = slide_name 1
+  | Err _ => False
+  end.
+Proof.
+  vm_compute. eexists. split; [reflexivity|]. split; [|reflexivity].
+  repeat constructor; simpl; tauto.
+Qed.
